@@ -289,7 +289,9 @@ class TAP003(AbstractTAP, discriminator="tap-003"):
             username = last_hist_item.request[6]
             password = last_hist_item.request[8]
             hostname = last_hist_item.request[2]
-            self.network_knowledge["credentials"][hostname] = {"username": username, "password": password}
+            # keep what else is known about the host (its ip_address): only the account changed
+            known = self.network_knowledge["credentials"].get(hostname, {})
+            self.network_knowledge["credentials"][hostname] = {**known, "username": username, "password": password}
             self.logger.debug(f"Updating network knowledge. Changed {username}'s password to {password} on {hostname}.")
             self._change_password_target_host = ""
 
